@@ -606,3 +606,125 @@ PROPS['C10'] = dict(
     assumptions=['bits_count comes from an f64 formula and is taken from the implementation as an input of the model',
                  'storage-level filter answers are judged by the no-false-negative oracle; bit-exact comparison is done on the Bloom type'],
 )
+
+
+# ---- C17: committed corpus written by the pinned release ---------------------------------------------------
+
+def c17_entries():
+    base = os.path.join(ROOT, 'corpus', 'C17')
+    out = []
+    for name in sorted(os.listdir(base)) if os.path.isdir(base) else []:
+        d = os.path.join(base, name)
+        if os.path.isdir(os.path.join(d, 'dir')):
+            out.append(dict(name=name, dir=os.path.join(d, 'dir'),
+                            gen=[l.rstrip('\n') for l in open(os.path.join(d, 'gen.txt')) if l.strip()],
+                            queries=[l.rstrip('\n') for l in open(os.path.join(d, 'queries.txt')) if l.strip()],
+                            answers=[l.rstrip('\n') for l in open(os.path.join(d, 'answers.txt'))]))
+    return out
+
+
+def c17_scenarios(tier, rng):
+    scens = []
+    for e in c17_entries():
+        idx = sorted(int(f.split('.')[1]) for f in os.listdir(e['dir']) if f.endswith('.index'))
+        subsets = [[], idx, idx[:1], idx[-1:], idx[::2]]
+        if tier == 'thorough':
+            for _ in range(12):
+                subsets.append([i for i in idx if rng.random() < 0.5])
+        seen = set()
+        for s in subsets:
+            key = tuple(s)
+            if key in seen:
+                continue
+            seen.add(key)
+            for lazy in ([False, True] if tier == 'thorough' or not s else [False]):
+                rp = f"replayfrom {e['dir']}" + (f" rmidx={','.join(map(str, s))}" if s else '') + (' lazy' if lazy else '')
+                scens.append(e['gen'] + [rp, 'states'] + e['queries'])
+        cfg = e['gen'][0]
+        klen = int([t for t in cfg.split() if t.startswith('key=')][0][4:])
+        other = 8 if klen != 8 else 4
+        base = ' '.join(t for t in cfg.split() if not t.startswith('key='))
+        probe = 'ab' * other
+        scens.append([f'{base} key={other} from={e["dir"]}', 'nomodel', 'corrupted', f'r {probe}', f'c {probe}', 'counts'])
+        scens.append([f'{cfg} from={e["dir"]} patch=blobver', 'nomodel', 'corrupted'])
+        scens.append([f'{cfg} from={e["dir"]} patch=idxver', 'nomodel', 'states'] + e['queries'])
+    return scens
+
+
+def _c17_entry_of(res):
+    for l in res['script']:
+        m = None
+        for tok in l.split():
+            if tok.startswith('from=') or (l.startswith('replayfrom') and tok.startswith('/')):
+                m = tok[5:] if tok.startswith('from=') else tok
+        if m:
+            for e in c17_entries():
+                if e['dir'] == m:
+                    return e
+    return None
+
+
+def oracle_c17(res, i):
+    cmd = res['script'][i]
+    out = res['impl'][i]
+    e = _c17_entry_of(res)
+    if e is None:
+        return None
+    first = res['script'][0]
+    if cmd.startswith('replayfrom') and out != 'ok':
+        return f'MISMATCH directory written by the pinned release does not open: {out}'
+    if 'patch=blobver' in first:
+        if cmd == 'corrupted' and 'Validation/BlobVersion' not in out:
+            return f'MISMATCH blob with a foreign format version was not rejected with a validation error: {out}'
+        return 'OK'
+    if 'from=' in first and i > 0:
+        r = _c17_from(res, i, e, cmd, out, first)
+        return r if r else 'OK'     # the Spec oracle has no history for a directory it did not see being written
+    return _c17_from(res, i, e, cmd, out, first)
+
+
+def _c17_from(res, i, e, cmd, out, first):
+    if 'from=' in first and 'patch=' not in first:
+        # foreign key size: nothing may be served, the blobs are rejected (quarantined with a validation error)
+        if cmd == 'corrupted' and (not out.startswith('n=') or int(out[2:]) < 1):
+            return f'MISMATCH blobs with a foreign key size were not rejected: {out}'
+        if cmd.split()[0] in ('r', 'c') and out != 'notfound':
+            return f'MISMATCH blobs with a foreign key size were misread: {out}'
+        if cmd == 'counts' and 'rc=0 ' not in out:
+            return f'MISMATCH blobs with a foreign key size were misread: {out}'
+        return None
+    # answers recorded when the pinned release produced the directory
+    started = any(l.startswith('replayfrom') for l in res['script'][:i]) or 'patch=idxver' in first
+    if started and cmd in e['queries']:
+        # the j-th query line after the replay
+        start = max(j for j, l in enumerate(res['script'][:i + 1]) if l.startswith('replayfrom') or j == 0)
+        qs = [j for j in range(start, len(res['script'])) if res['script'][j] in e['queries']]
+        k = qs.index(i) if i in qs else None
+        if k is not None and k < len(e['answers']):
+            want = e['answers'][k]
+            if cmd == 'counts':
+                want = [t for t in want.split() if t.startswith('rc=')]
+                got = [t for t in out.split() if t.startswith('rc=')]
+                return None if want == got else f'MISMATCH recorded {want} got {got}'
+            if out != want:
+                return f'MISMATCH answer recorded by the pinned release [{want}] now [{out}]'
+    return None
+
+
+PROPS['C17'] = dict(
+    scenarios=c17_scenarios,
+    gen=lambda rng, tier: None,
+    p_cmds={'r', 'c', 'ram', 'ra', 'rw', 'counts', 'replayfrom', 'corrupted'},
+    oracle_cmds={'r', 'c', 'ram', 'ra', 'rw', 'states'}, py_oracle=oracle_c17,
+    count={'quick': 0, 'thorough': 0}, timeout=1800,
+    nontrivial=lambda lines: any(l.startswith('replayfrom') or 'from=' in l for l in lines),
+    features=lambda lines: {('replay rmidx' if 'rmidx=' in l else 'replay all indexes') for l in lines if l.startswith('replayfrom')}
+    | {t for l in lines[:1] for t in l.split() if t.startswith(('key=', 'patch=', 'bloom='))},
+    rule=("for every directory of the committed corpus (written by the pinned release: key sizes 4/8/33/128, bloom "
+          "off/on, deletion markers, metadata, stale and fresh index files, a two-level B+tree) and several subsets of "
+          "index files removed (thorough: 12 more random subsets, eager and lazy init): the generating history is replayed "
+          "on model and current code, the directory is replaced by the pinned one, and every recorded query is asked again; "
+          "plus: open with a foreign key size (nothing served, blobs rejected), a foreign blob format version (init fails "
+          "with Validation/BlobVersion), a foreign index version (index regenerated, same answers)"),
+    assumptions=['the corpus was produced by the pinned tree plus the add-only hook commits (harness needs the probes)'],
+)
